@@ -426,6 +426,12 @@ class _ExprCanon(ast.NodeTransformer):
                 return ast.copy_location(_mcall(node.value, "unsqueeze", arg), node)
         return node
 
+    def _method_canon(self, node):
+        f = node.func
+        if f.attr in ("reshape", "view") and len(node.args) == 1 and isinstance(node.args[0], ast.Tuple) and not node.keywords and node.args[0].elts:
+            node.args = list(node.args[0].elts)
+        return node
+
     def visit_Call(self, node):
         self.generic_visit(node)
         f = node.func
@@ -436,6 +442,11 @@ class _ExprCanon(ast.NodeTransformer):
             return ast.copy_location(_mcall(node.args[0], "conj"), node)
         if fn == "torch.linalg.inv" and len(node.args) == 1:
             return ast.copy_location(_tcall("inverse", node.args[0]), node)
+        if fn in ("torch.reshape", "torch.transpose", "torch.unsqueeze", "torch.squeeze", "torch.permute", "torch.swapaxes") and node.args \
+                and not isinstance(node.args[0], ast.Starred) and not any(k.arg in ("input", "self") for k in node.keywords):
+            # function form -> method form (the form the package uses)
+            new = ast.Call(func=ast.Attribute(value=node.args[0], attr=f.attr, ctx=ast.Load()), args=list(node.args[1:]), keywords=node.keywords)
+            return self.visit_Call(ast.copy_location(new, node)) if False else self._method_canon(ast.copy_location(new, node))
         if fn == "torch.flatten" and len(node.args) == 1 and not node.keywords:
             return ast.copy_location(_mcall(node.args[0], "reshape", ast.UnaryOp(op=ast.USub(), operand=ast.Constant(1))), node)
         if fn in ("torch.autograd.grad", "autograd.grad") and node.args:
@@ -447,6 +458,22 @@ class _ExprCanon(ast.NodeTransformer):
                         and not isinstance(k.value.elts[0], ast.Starred):
                     k.value = k.value.elts[0]
             return node
+        # x.narrow(d, start, length) / torch.narrow(x, d, start, length) with d in (-1, 0) is the slice x[..., start:start+length] / x[start:..]
+        nargs = ([f.value] + list(node.args)) if (isinstance(f, ast.Attribute) and f.attr == "narrow" and fn != "torch.narrow") else (list(node.args) if fn == "torch.narrow" else None)
+        if nargs is not None and len(nargs) == 4 and not node.keywords:
+            try:
+                d_ = ast.literal_eval(nargs[1])
+            except Exception:
+                d_ = None
+            if d_ in (-1, 0):
+                st_, ln_ = nargs[2], nargs[3]
+                if isinstance(ln_, ast.BinOp) and isinstance(ln_.op, ast.Sub) and ast.unparse(ln_.right) == ast.unparse(st_):
+                    up_ = ln_.left
+                else:
+                    up_ = ast.BinOp(left=st_, op=ast.Add(), right=ln_)
+                sl_ = ast.Slice(lower=st_, upper=up_, step=None)
+                idx_ = sl_ if d_ == 0 else ast.Tuple(elts=[ast.Constant(value=Ellipsis), sl_], ctx=ast.Load())
+                return ast.copy_location(ast.Subscript(value=nargs[0], slice=idx_, ctx=ast.Load()), node)
         if fn == "torch.cat" and len(node.args) == 1 and len(node.keywords) == 1 and node.keywords[0].arg == "dim" \
                 and isinstance(node.keywords[0].value, ast.Constant) and node.keywords[0].value.value == 0:
             node.keywords = []
